@@ -148,11 +148,35 @@ class C16:
         size = ("sub", ("attr", arr, "sizes"), dim)
         bad = None
         n = 0
+        from sa.memo import simplify
+        from sa.sym import TRUE, FALSE as F_
+        cases_ = []
         for v, raise_error in itertools.product((-1.0, 0.0, 0.5, 1.0, 2.0), (True, False)):
             env = {st: 0.0, sp: 1.0, value: v, re_: raise_error}
+            # conditions the grid does not decide (e.g. "the axis records a step") are free: every combination of
+            # their truth values is a case of its own
+            resid = [peval(e.live, env) for e in s.returns + s.raises]
+            atoms = []
+            for lv in resid:
+                if lv[0] != "const":
+                    for c in conjuncts(lv):
+                        a_ = c[1] if c[0] == "not" else c
+                        if a_[0] in ("and", "or"):
+                            atoms = None
+                            break
+                        if a_ not in atoms and NOT(a_) not in atoms:
+                            atoms.append(a_)
+                    if atoms is None:
+                        break
+            if atoms is None or len(atoms) > 3:
+                ctx.undec("R16.2", site, f"path condition outside the recognised fragment: {show([l for l in resid if l[0] != 'const'][0])[:70]}")
+                return
+            for vals in itertools.product((TRUE, F_), repeat=len(atoms)):
+                cases_.append((v, raise_error, env, dict(zip(atoms, vals))))
+        for v, raise_error, env, facts in cases_:
             outs = []
             for e in s.returns + s.raises:
-                lv = peval(e.live, env)
+                lv = simplify(peval(e.live, env), facts)
                 if lv == ("const", True):
                     outs.append((e.kind, peval(e.term, env) if e.kind == "return" else e.term))
                 elif lv[0] != "const":
@@ -174,7 +198,8 @@ class C16:
                 good = kind == "return" and t == (("const", 0) if v < 0 else size)
                 exp = "0" if v < 0 else "arr.sizes[dim]"
             if not good:
-                bad = (v, raise_error, f"{kind} {show(t)[:50]} (expected {exp})")
+                when = "".join(f" when `{show(a_)[:60]}` is {b_[1]}" for a_, b_ in facts.items())
+                bad = (v, raise_error, f"{kind} {show(t)[:70]}{when} (expected {exp})")
                 break
         if bad is None:
             ctx.ok("R16.2", site, f"in [start, stop]: right bound - 1; outside: KeyError iff raise_error else clamp to 0 / size ({n} cases)")
@@ -202,33 +227,59 @@ class C16:
         site = f"{file}:{s.node.lineno} set_value_at_pos"
         arr, val = ("param", s.params[0]), ("param", s.params[1])
         q = ("param", "**" + s.kwarg) if s.kwarg else None
-        loops = [l for l in s.loops.values() if l.kind == "for"]
         stores = s.of("store")
         final = [e for e in stores if e.term[1][0] == "sub" and e.term[1][1] == ("attr", arr, "data")]
         idx_stores = [e for e in stores if e not in final]
-        if q is None or len(loops) != 1 or loops[0].iter != ("call", ("attr", q, "items"), (), ()) or loops[0].conds:
-            ctx.undec("R16.3", site, "loop over the query items not found")
-            return
-        e = ("elem", loops[0].id)
-        dimv, coord = ("sub", e, ("const", 0)), ("sub", e, ("const", 1))
-        ok_idx = False
-        indexer = None
-        if len(idx_stores) == 1:
-            t = idx_stores[0].term
-            indexer = t[1][1] if t[1][0] == "sub" else None
+        items = ("call", ("attr", q, "items"), (), ()) if q is not None else None
+        SL = ("call", ("builtin", "slice"), (NONE,), ())
+        RNG = ("call", ("builtin", "range"), (("attr", arr, "ndim"),), ())
+
+        def entry_ok(lid, key, val):
+            """key / value of the per-dimension entry: axis number of THAT dim -> coordinate index of THAT dim"""
+            e = ("elem", lid)
+            dimv, coord = ("sub", e, ("const", 0)), ("sub", e, ("const", 1))
             want_pos = ("call", ("attr", arr, "get_axis_num"), (dimv,), ())
             want_val = ("call", ("global", f"{DIMS}:get_coord_index", "func"), (arr, dimv, coord), ())
-            ok_idx = t[1][0] == "sub" and t[1][2] == want_pos and ctx.normcalls(t[2]) == ctx.normcalls(want_val) \
+            return key == want_pos and ctx.normcalls(val) == ctx.normcalls(want_val)
+
+        ok_idx = init_ok = False
+        index_term = None  # the term that must subscript array.data
+        form = None
+        loops = [l for l in s.loops.values() if l.kind == "for" and l.iter == items and not l.conds]
+        if q is not None and len(loops) == 1 and len(idx_stores) == 1:
+            # form A: full-slice list, one store per queried dimension, tuple(indexer)
+            form = "list of slices updated per query item"
+            t = idx_stores[0].term
+            indexer = t[1][1] if t[1][0] == "sub" else None
+            ok_idx = t[1][0] == "sub" and entry_ok(loops[0].id, t[1][2], t[2]) and loops[0].id in idx_stores[0].loops \
                 and all(c[0] == "inloop" for c in conjuncts(idx_stores[0].live))
-        init_ok = indexer is not None and indexer[0] == "comp" and indexer[2] == ("call", ("builtin", "slice"), (NONE,), ()) and \
-            indexer[3][0][1] == ("call", ("builtin", "range"), (("attr", arr, "ndim"),), ())
-        if ok_idx and init_ok:
-            ctx.ok("R16.3", site, "indexer[axis of dim] = get_coord_index(array, dim, coord) for each query item, on a full-slice indexer")
+            init_ok = indexer is not None and indexer[0] == "comp" and indexer[1] == "list" and indexer[2] == SL and len(indexer[3]) == 1 \
+                and indexer[3][0][1] == RNG and not indexer[3][0][2]
+            index_term = ("call", ("builtin", "tuple"), (indexer,), ()) if indexer is not None else None
+        elif q is not None and not idx_stores and len(final) == 1:
+            # form B: {axis: index for each query item} looked up per axis, full slice elsewhere
+            form = "per-axis lookup in a table of the queried axes"
+            it = final[0].term[1][2]
+            g = it[2][0] if it[0] == "call" and it[1] == ("builtin", "tuple") and len(it[2]) == 1 else it
+            if g[0] == "comp" and g[1] in ("gen", "list") and len(g[3]) == 1 and g[3][0][1] == RNG and not g[3][0][2]:
+                ax = ("elem", g[3][0][0])
+                elt = g[2]
+                if elt[0] == "ite" and elt[1][0] == "cmp" and elt[1][1] == "in" and elt[1][2] == ax and elt[3] == SL and elt[2] == ("sub", elt[1][3], ax):
+                    tab = elt[1][3]
+                    init_ok = True
+                    if tab[0] == "comp" and tab[1] == "dict" and len(tab[3]) == 1 and tab[3][0][1] == items and not tab[3][0][2] and tab[2][0] == "kv":
+                        ok_idx = entry_ok(tab[3][0][0], tab[2][1], tab[2][2])
+                index_term = it if it[0] == "call" else ("call", ("builtin", "tuple"), (it,), ()) if g[1] == "list" else it
         else:
-            ctx.bad("R16.3", file, "set_value_at_pos", f"indexer stores: {[show(x.term)[:70] for x in idx_stores]}",
+            ctx.undec("R16.3", site, "loop over the query items not found")
+            return
+        if ok_idx and init_ok:
+            ctx.ok("R16.3", site, f"indexer[axis of dim] = get_coord_index(array, dim, coord) for each query item, full slice elsewhere ({form})")
+        else:
+            ctx.bad("R16.3", file, "set_value_at_pos", f"indexer stores: {[show(x.term)[:70] for x in idx_stores] or show(index_term)[:80]}",
                     "for every queried dimension the indexer entry at THAT dimension's axis number must be THAT dimension's coordinate "
                     "index, starting from one full slice per axis: otherwise another cell is addressed", s.node.lineno)
-        if len(final) == 1 and indexer is not None and final[0].term[1][2] == ("call", ("builtin", "tuple"), (indexer,), ()) and final[0].term[2] == val \
+        if len(final) == 1 and index_term is not None and final[0].term[1][2] == index_term and final[0].term[2] == val \
                 and not final[0].loops:
             ctx.ok("R16.3", site, "single store array.data[tuple(indexer)] = value")
         else:
